@@ -97,6 +97,11 @@ type dialResult struct {
 	done chan struct{}
 	conn *wsConnection
 	err  error
+
+	// aborted reports that the dial was given up because the dialling
+	// subscriber's own ctx ended. That outcome belongs to the dialler alone and
+	// is never handed to the waiters.
+	aborted bool
 }
 
 // NewWSTransport creates a new WSTransport. Connections are not closed when ctx
@@ -207,6 +212,15 @@ func (t *WSTransport) getOrDial(ctx context.Context, opts common.Options) (*wsCo
 		case <-result.done:
 		}
 
+		if result.aborted {
+			// Not this caller's failure: dial again unless its own ctx ended too.
+			if err := ctx.Err(); err != nil {
+				return nil, err
+			}
+
+			return t.getOrDial(ctx, opts)
+		}
+
 		if result.err != nil {
 			return nil, result.err
 		}
@@ -220,10 +234,8 @@ func (t *WSTransport) getOrDial(ctx context.Context, opts common.Options) (*wsCo
 
 	conn, err := t.dial(ctx, key, opts)
 
-	result.conn = conn
-	result.err = err
-	close(result.done)
-
+	// Leave the dialing table before waking the waiters, so that a waiter that
+	// dials again does not find this finished attempt.
 	t.mu.Lock()
 	delete(t.dialing, key)
 
@@ -231,6 +243,11 @@ func (t *WSTransport) getOrDial(ctx context.Context, opts common.Options) (*wsCo
 		t.conns[key] = conn
 	}
 	t.mu.Unlock()
+
+	result.conn = conn
+	result.err = err
+	result.aborted = err != nil && ctx.Err() != nil
+	close(result.done)
 
 	return conn, err
 }
